@@ -20,6 +20,7 @@ const ENV_KEYS: &[&str] = &[
     "KYRODB__SERVER__TLS__CERT_PATH",
     "KYRODB__SERVER__TLS__KEY_PATH",
     "KYRODB__SERVER__HOST",
+    "KYRODB__SERVER__HTTP_HOST",
 ];
 
 struct Row {
@@ -34,6 +35,7 @@ struct Row {
     fresh: bool,
     tls: bool,
     host: String,
+    hhost: Option<String>,
 }
 
 fn toml_of(r: &Row) -> String {
@@ -41,6 +43,9 @@ fn toml_of(r: &Row) -> String {
     let mut t = String::new();
     t += &format!("[environment]\ntype = {}\n", q(&r.env));
     t += &format!("[server]\nhost = {}\nport = 50051\nobservability_auth = {}\n", q(&r.host), q(&r.obs));
+    if let Some(h) = &r.hhost {
+        t += &format!("http_host = {}\n", q(h));
+    }
     t += &format!("[server.tls]\nenabled = {}\n", r.tls);
     if r.tls {
         t += "cert_path = \"c.pem\"\nkey_path = \"k.pem\"\n";
@@ -59,7 +64,11 @@ fn yaml_of(r: &Row) -> String {
     let q = |s: &str| serde_json::to_string(s).unwrap(); // JSON strings are valid YAML double-quoted scalars
     let mut t = String::new();
     t += &format!("environment:\n  type: {}\n", q(&r.env));
-    t += &format!("server:\n  host: {}\n  port: 50051\n  observability_auth: {}\n  tls:\n    enabled: {}\n", q(&r.host), q(&r.obs), r.tls);
+    t += &format!("server:\n  host: {}\n  port: 50051\n  observability_auth: {}\n", q(&r.host), q(&r.obs));
+    if let Some(h) = &r.hhost {
+        t += &format!("  http_host: {}\n", q(h));
+    }
+    t += &format!("  tls:\n    enabled: {}\n", r.tls);
     if r.tls {
         t += "    cert_path: \"c.pem\"\n    key_path: \"k.pem\"\n";
     }
@@ -93,6 +102,9 @@ fn set_env(r: &Row) {
         std::env::set_var("KYRODB__SERVER__TLS__KEY_PATH", "k.pem");
     }
     std::env::set_var("KYRODB__SERVER__HOST", &r.host);
+    if let Some(h) = &r.hhost {
+        std::env::set_var("KYRODB__SERVER__HTTP_HOST", h);
+    }
 }
 
 fn clear_env() {
@@ -132,6 +144,7 @@ pub fn step(line: &str, scratch: &PathBuf) -> (String, String) {
         fresh: boolean(&fs, "fresh").unwrap_or(false),
         tls: boolean(&fs, "tls").unwrap_or(false),
         host,
+        hhost: get("hhost").filter(|h| h != "-").and_then(|h| unhex(&h)),
     };
     clear_env();
     // a safe baseline that the overrides must be able to defeat
@@ -147,6 +160,7 @@ pub fn step(line: &str, scratch: &PathBuf) -> (String, String) {
         fresh: false,
         tls: false,
         host: "127.0.0.1".into(),
+        hhost: None,
     };
     let res = match via.as_str() {
         "toml" => {
